@@ -66,7 +66,12 @@ def _write_data(sid_path: Path, data: Mapping[str, Any]) -> bool:
                 data = previous_data
 
         # dumping data, converting to string if not serializable
-        data_path.write_text(json.dumps(data, indent=4, default=str))
+        text = json.dumps(data, indent=4, default=str)
+
+        # writing to a temporary file that then replaces the json: an interrupted write leaves the previous data intact
+        temp_path = data_path.with_name(data_path.name + ".tmp")
+        temp_path.write_text(text)
+        temp_path.replace(data_path)
 
         return data_path.exists()
 
